@@ -95,3 +95,87 @@ theorem mem_record {k : Nat} {st : St} {h : List Exch} {r : Row} (hr : r ∈ rec
       simp only [List.length_cons]; exact ⟨by omega, by omega, c⟩
 
 end Gallia.Replay
+
+namespace Gallia.Replay
+open Gallia
+
+/-- the server after a sequence of requests -/
+def runSrv (rows : List Row) : Srv → List Bytes → Srv
+  | s, [] => s
+  | s, q :: qs => runSrv rows (replayStep rows s q).1 qs
+
+/-- final server state after a history answered as recorded -/
+def serverFinal : St → List Exch → St
+  | st, [] => st
+  | st, x :: xs => serverFinal (srvNext st x.resp) xs
+
+theorem replayAll_append (rows : List Row) (s : Srv) (a b : List Bytes) :
+    replayAll rows s (a ++ b) = replayAll rows s a ++ replayAll rows (runSrv rows s a) b := by
+  induction a generalizing s with
+  | nil => rfl
+  | cons q qs ih => simp only [List.cons_append, replayAll, runSrv, ih]
+
+theorem record_view (sel : Selector) (ri : RunInfo) (hsel : selects sel ri = true) (k : Nat) (st : St) (h : List Exch) :
+    (recordDb ri k st h).map (DbRow.view sel) = record k st h := by
+  induction h generalizing k st with
+  | nil => rfl
+  | cons x xs ih => simp only [recordDb, record, List.map_cons, DbRow.view, hsel, ih]
+
+/-- one replay step at the head of the recorded suffix: the `id > last` query finds exactly the row of this exchange -/
+theorem replayStep_head (rows : List Row) (huniq : ∀ r ∈ rows, ∀ r' ∈ rows, r.id = r'.id → r = r')
+    (x : Exch) (xs : List Exch) (k : Nat) (st : St) (last : Option Nat)
+    (hrec : ∀ r ∈ record k st (x :: xs), r ∈ rows)
+    (hlow : ∀ r ∈ rows, r.selected = true → r.id < k → ∃ l, last = some l ∧ r.id ≤ l)
+    (hlast : ∀ l, last = some l → l < k) :
+    replayStep rows ⟨st, last⟩ x.req = (⟨srvNext st x.resp, some k⟩, x.resp) := by
+  let row0 : Row := ⟨k, true, st, x.req, x.resp⟩
+  have hrow0 : row0 ∈ rows := hrec row0 (by simp [record, row0])
+  have hpick : minRow (fun r => matchesQ st x.req r && afterLast last r.id) rows = some row0 := by
+    apply minRow_unique hrow0
+    · have : matchesQ st x.req row0 = true := by simp [matchesQ, row0]
+      simp only [this, Bool.true_and]
+      cases hl : last with
+      | none => rfl
+      | some l => simpa [row0, afterLast] using hlast l hl
+    · intro r hr hp
+      simp only [Bool.and_eq_true, matchesQ] at hp
+      obtain ⟨⟨⟨hsel, _⟩, _⟩, hgt⟩ := hp
+      show k ≤ r.id
+      by_cases hlt : r.id < k
+      · obtain ⟨l, hl, hle⟩ := hlow r hr hsel hlt
+        rw [hl] at hgt
+        simp only [afterLast, decide_eq_true_eq] at hgt
+        omega
+      · omega
+    · intro r hr hid; exact huniq r hr row0 hrow0 hid
+  simp only [replayStep, hpick]; rfl
+
+/-- the wrap-around step: nothing selected lies behind `last`, so the `id <= last` query restarts at the first row of
+    the recording -/
+theorem replayStep_wrap (rows : List Row) (huniq : ∀ r ∈ rows, ∀ r' ∈ rows, r.id = r'.id → r = r')
+    (x : Exch) (xs : List Exch) (k : Nat) (st : St) (l : Nat)
+    (hrec : ∀ r ∈ record k st (x :: xs), r ∈ rows)
+    (hall : ∀ r ∈ rows, r.selected = true → k ≤ r.id ∧ r.id ≤ l) :
+    replayStep rows ⟨st, some l⟩ x.req = (⟨srvNext st x.resp, some k⟩, x.resp) := by
+  let row0 : Row := ⟨k, true, st, x.req, x.resp⟩
+  have hrow0 : row0 ∈ rows := hrec row0 (by simp [record, row0])
+  have hnone : minRow (fun r => matchesQ st x.req r && afterLast (some l) r.id) rows = none := by
+    cases hm : minRow (fun r => matchesQ st x.req r && afterLast (some l) r.id) rows with
+    | none => rfl
+    | some m =>
+      obtain ⟨h1, h2, _⟩ := minRow_some hm
+      simp only [Bool.and_eq_true, matchesQ, afterLast, decide_eq_true_eq] at h2
+      have := (hall m h1 h2.1.1.1).2
+      omega
+  have hpick : minRow (fun r => matchesQ st x.req r && uptoLast (some l) r.id) rows = some row0 := by
+    apply minRow_unique hrow0
+    · have : matchesQ st x.req row0 = true := by simp [matchesQ, row0]
+      simp only [this, Bool.true_and, uptoLast, decide_eq_true_eq]
+      exact (hall row0 hrow0 rfl).2
+    · intro r hr hp
+      simp only [Bool.and_eq_true, matchesQ] at hp
+      exact (hall r hr hp.1.1.1).1
+    · intro r hr hid; exact huniq r hr row0 hrow0 hid
+  simp only [replayStep, hnone, hpick]; rfl
+
+end Gallia.Replay
